@@ -208,6 +208,8 @@ def sort_keys(w):
         return [sort_keys(x) for x in w]
     if isinstance(w, dict) and 'd' in w:
         return {'d': sorted(([sort_keys(k), sort_keys(v)] for k, v in w['d']), key=canon)}
+    if isinstance(w, dict):
+        return {k: sort_keys(v) for k, v in w.items()}
     return w
 
 
@@ -447,6 +449,13 @@ ECHO = {'name': 'pypyr.steps.echo', 'in': {'echoMe': 'hello'}}
 NEVER = raise_step('RuntimeError', 'this step must never run')
 BLOCK = ("import time\nopen('@TMP@/marker', 'w').close()\n"
          "t0 = time.monotonic()\nwhile time.monotonic() - t0 < 40: time.sleep(0.05)\n")
+# a custom step module next to the pipeline: creates the marker, then blocks in ordinary Python code
+BLOCKMOD = {'work/blocker.py': "import time\ndef run_step(context):\n    open('@TMP@/marker', 'w').close()\n"
+                               "    t0 = time.monotonic()\n    while time.monotonic() - t0 < 40:\n        time.sleep(0.05)\n"}
+
+
+def blk(**deco):
+    return {'name': 'blocker', **deco} if deco else 'blocker'
 
 
 def proc_cases(env, full):
@@ -457,7 +466,7 @@ def proc_cases(env, full):
         f = dict(files or {})
         if steps is not None:
             f['work/pipe.yaml'] = jpipe(steps=steps, **groups)
-        C.append({'kind': 'proc', 'term': term, 'variant': variant, 'files': f, 'argv': argv or ['pipe'],
+        C.append({'kind': 'proc', 'term': term, 'variant': variant, 'files': f, 'argv': ['pipe'] if argv is None else argv,
                   'expect': expect, 'raised': raised, 'sigint': sigint})
 
     OK = {'status': 0}
@@ -480,9 +489,7 @@ def proc_cases(env, full):
         add(short, 'in-foreach', [{'name': stopper, 'foreach': [1, 2, 3]}] + ([NEVER] if short != 'stopstepgroup' else []), OK)
         add(short, 'in-retry', [{'name': stopper, 'retry': {'max': 3}}] + ([NEVER] if short != 'stopstepgroup' else []), OK)
         add(short, 'in-on_success', [ECHO], OK, on_success=[stopper, NEVER])
-        add(short, 'in-on_failure-after-error', [raise_step('ValueError', 'orig')],
-            OK if short != 'stopstepgroup' else {'status': 255, 'type': 'ValueError', 'msg': 'orig'},
-            on_failure=[stopper, NEVER], raised=None if short != 'stopstepgroup' else {'kind': 'error', 'ty': 'ValueError', 'msg': 'orig'})
+        add(short, 'in-on_failure-after-error', [raise_step('ValueError', 'orig')], OK, on_failure=[stopper, NEVER])
         child = {'work/child.yaml': jpipe(steps=[stopper, NEVER])}
         if short == 'stop':
             add(short, 'in-child-pipeline', [{'name': 'pypyr.steps.pype', 'in': {'pype': {'name': 'child'}}}, NEVER], OK, files=child)
@@ -525,20 +532,26 @@ def proc_cases(env, full):
     add('usage', 'no-name', [ECHO], {'status': 2}, argv=[])
     add('usage', 'ctx-after-option', [ECHO], {'status': 2}, argv=['pipe', '--success', 's', 'extra'])
     # --- keyboard interrupt, delivered once the marker exists
-    add('sigint', 'plain', [py(BLOCK), NEVER], {'status': 130}, sigint=True)
-    add('sigint', 'swallow', [py(BLOCK, swallow=True), NEVER], {'status': 130}, sigint=True)
-    add('sigint', 'retry', [py(BLOCK, retry={'max': 3}), NEVER], {'status': 130}, sigint=True)
-    add('sigint', 'foreach', [py(BLOCK, foreach=[1, 2]), NEVER], {'status': 130}, sigint=True)
-    add('sigint', 'while', [py(BLOCK, **{'while': {'max': 3}}), NEVER], {'status': 130}, sigint=True)
+    SI = {'status': 130}
+    add('sigint', 'plain', [blk(), NEVER], SI, sigint=True, files=BLOCKMOD)
+    add('sigint', 'swallow', [blk(swallow=True), NEVER], SI, sigint=True, files=BLOCKMOD)
+    add('sigint', 'retry', [blk(retry={'max': 3}), NEVER], SI, sigint=True, files=BLOCKMOD)
+    add('sigint', 'foreach', [blk(foreach=[1, 2]), NEVER], SI, sigint=True, files=BLOCKMOD)
+    add('sigint', 'while', [blk(**{'while': {'max': 3}}), NEVER], SI, sigint=True, files=BLOCKMOD)
     add('sigint', 'in-child-pipeline', [{'name': 'pypyr.steps.pype', 'in': {'pype': {'name': 'child', 'raiseError': False}}}, NEVER],
-        {'status': 130}, sigint=True, files={'work/child.yaml': jpipe(steps=[py(BLOCK)])})
-    add('sigint', 'in-on_failure', [raise_step('ValueError', 'orig')], {'status': 130}, sigint=True, on_failure=[py(BLOCK)])
-    add('sigint', 'in-on_success', [ECHO], {'status': 130}, sigint=True, on_success=[py(BLOCK)])
-    add('sigint', 'in-called-group', [{'name': 'pypyr.steps.call', 'in': {'call': 'g'}}, NEVER], {'status': 130}, sigint=True, g=[py(BLOCK)])
+        SI, sigint=True, files={'work/child.yaml': jpipe(steps=[blk()]), **BLOCKMOD})
+    add('sigint', 'in-on_failure', [raise_step('ValueError', 'orig')], SI, sigint=True, on_failure=[blk()], files=BLOCKMOD)
+    add('sigint', 'in-on_success', [ECHO], SI, sigint=True, on_success=[blk()], files=BLOCKMOD)
+    add('sigint', 'in-called-group', [{'name': 'pypyr.steps.call', 'in': {'call': 'g'}}, NEVER], SI, sigint=True, g=[blk()],
+        files=BLOCKMOD)
     add('sigint', 'during-cmd-step',
         [{'name': 'pypyr.steps.cmd', 'in': {'cmd': "@PY@ -S -c \"import time; open('@TMP@/marker','w').close(); time.sleep(40)\""}}, NEVER],
-        {'status': 130}, sigint=True)
-    add('sigint', 'log-50', [py(BLOCK), NEVER], {'status': 130}, sigint=True, argv=['pipe', '--log', '50'])
+        SI, sigint=True)
+    add('sigint', 'log-50', [blk(), NEVER], SI, sigint=True, argv=['pipe', '--log', '50'], files=BLOCKMOD)
+    # interrupted inside exec() of a *string* (the py step): under `python -m` CPython 3.12 then ends the
+    # process by re-raising SIGINT although cli.main caught the interrupt and returned 130 (a shell shows
+    # 130 either way). Accepted as 130 when main's handler demonstrably ran; counted in the distribution.
+    add('sigint', 'in-py-step-exec', [py(BLOCK), NEVER], {'status': 130, 'or_sigint_death': True}, sigint=True)
     # --- pass-through, end to end
     for _ in range(40 if full else 10):
         C.append(probe_case(rng))
@@ -558,7 +571,7 @@ def proc_cases(env, full):
 
 
 PROBE = ("import json\nwith open('@TMP@/probe.jsonl', 'a', encoding='utf-8') as f:\n"
-         "    f.write(json.dumps({'g': %r, 'ctx': {k: v for k, v in context.items() if k != 'pycode'}}) + '\\n')\n")
+         "    f.write(json.dumps({'g': %r, 'ctx': {k: v for k, v in context.items() if k not in ('pycode', 'py', 'runErrors')}}, default=str) + '\\n')\n")
 
 
 def probe_step(group):
@@ -648,6 +661,9 @@ def judge_proc(env, res, c, o):
     brief = {'status': o['status'], 'stderr_tail': o['stderr'][-600:], 'probe': o['probe']}
     sig = {'part': 'process', 'term': c['term'], 'variant': c['variant'].split('/')[0]}
     # ---- monitor: the property text
+    if exp.get('or_sigint_death') and o['status'] == -2 and o['stdout'].endswith('\n'):
+        res.count('sigint:exec-str-under-dash-m:died-by-SIGINT-after-main-returned')
+        o = {**o, 'status': 130}
     if o['status'] != exp['status']:
         res.violation(case, f"{c['term']}/{c['variant']}: exit status {o['status']}, expected {exp['status']}",
                       signature={**sig, 'clause': f"status-{exp['status']}"}, impl=brief)
